@@ -55,6 +55,9 @@ EMPTY_SET = z3.K(Ty, z3.BoolVal(False))
 # order): global symbolic constants = universally quantified
 REG_TAGS = z3.Const('reg_tags', so.StrSeq)
 REG_TYPES = z3.Const('reg_types', so.TySeq)
+DOC_TYPE = z3.Const('document_type', Ty)          # UserLoader.document_type
+COMPOSED = z3.Const('composed_document', so.YNode)    # what PyYAML composed
+COMPOSED_NONE = z3.Const('composed_is_none', B)       # empty stream
 _OR = z3.Or(z3.Bool('a'), z3.Bool('b')).decl()
 
 ty_args = z3.Function('sp_ty_args', Ty, so.TySeq)
@@ -235,6 +238,17 @@ class VParamSeq(V):
         self.t = t
 
 
+class VSuper(V):
+    __slots__ = ()
+
+
+class VSelfType(V):
+    __slots__ = ('obj',)
+
+    def __init__(self, obj):
+        self.obj = obj
+
+
 class VIterSet(V):
     __slots__ = ('s',)
 
@@ -256,7 +270,8 @@ SPECB = ('tyset_empty', 'tyset_of', 'in_set', 'card0', 'card1', 'cardmany',
          'cls_preq', 'cls_bases', 'reg_has', 'reg_has_tag', 'reg_lookup',
          'reg_types', 'reg_tags', 'recog_ok', 'sav_ok', 'sav_result',
          'E', 'err_msg', 'err_causes', 'image_list', 'reg_len', 'set_remove',
-         'image_dict_key', 'image_dict_val', 'dashed', 'is_base_of', 'wf_ty', 'forall_in', 'sav_trace', 'empty_tys', 'prefix_of')
+         'image_dict_key', 'image_dict_val', 'dashed', 'is_base_of', 'wf_ty', 'forall_in', 'sav_trace', 'empty_tys', 'prefix_of', 'document_type',
+         'composed_document')
 
 
 ct_subclass = z3.Function('ct_subclass', Ty, Ty, B)       # issubclass(a, b)
@@ -295,6 +310,10 @@ class TypesPlugin:
 
     # ---------------------------------------------------------- attributes
     def value_attr(self, eng, v, name, st):
+        if isinstance(v, VSuper) and name in ('get_single_node', 'get_node'):
+            return [(st, VExtMethod(v, name))]
+        if isinstance(v, VSelfType) and name == 'document_type':
+            return [(st, VTy(DOC_TYPE))]
         if isinstance(v, VTy):
             if name == '__name__':
                 return [(st, VStr(ct_name(v.t)))]
@@ -358,6 +377,21 @@ class TypesPlugin:
     def call_method(self, eng, recv, name, args, kwargs, st, node):
         if isinstance(recv, VObj) and name == 'resolve':
             return self.call_method_resolve(eng, args, st)
+        if isinstance(recv, VSuper) and name in ('get_single_node',
+                                                 'get_node'):
+            eng.assume_note('E-COMPOSE: PyYAML parse+compose yields YAMLError, '
+                            'None (no document) or a node tree of Scalar/'
+                            'Sequence/Mapping nodes')
+            out = []
+            s1 = st.fork().assume(COMPOSED_NONE)
+            out.append((s1, NONE))
+            s2 = st.fork().assume(z3.Not(COMPOSED_NONE))
+            s2.assume(so.is_N(COMPOSED))
+            out.append((s2, s2.new_root(COMPOSED, 'd')))
+            s3 = st.fork()
+            out.append((s3, Raise(VExc('YAMLError', (), getattr(
+                node, 'lineno', 0)))))
+            return out
         if isinstance(recv, VRegDict):
             if name == 'values':
                 return [(st, VSeq(recv.types, 'ty'))]
@@ -450,6 +484,8 @@ class TypesPlugin:
         line = getattr(node, 'lineno', 0)
         if name == 'set' and not args:
             return [(st, VEmptySet())]
+        if name == 'super' and not args:
+            return [(st, VSuper())]
         if name == 'issubclass':
             t = eng.as_ty(args[0])
             c = args[1]
@@ -598,6 +634,11 @@ class TypesPlugin:
         st.assume(z3.PrefixOf(z3.StringVal('tag:yaml.org,2002:'), t))
         return [(st, VStr(t))]
 
+    def type_of(self, eng, v, st, node):
+        if isinstance(v, VObj) and v.cls is not None:
+            return [(st, VSelfType(v))]
+        return None
+
     def map_of(self, eng, f, xs, st, node):
         if isinstance(xs, (VTySet, VEmptySet)):
             return [(st, VOpaque('map over a set of types'))]
@@ -655,6 +696,13 @@ class TypesPlugin:
     def call_specb(self, eng, name, args, st, node):
         T = lambda v: eng.models.to_term(eng, v, Ty, st)          # noqa
         SET = lambda v: self.to_set(eng, v)                        # noqa
+        if name == 'document_type':
+            return VTy(DOC_TYPE)
+        if name == 'composed_document':
+            empty = so.mkN(so.K_SCALAR, z3.StringVal(
+                'tag:yaml.org,2002:null'), z3.StringVal(''), so.EMPTY_NODES,
+                so.EMPTY_PAIRS, so.GEN_MARK, so.GEN_MARK)
+            return VNodeVal(z3.If(COMPOSED_NONE, empty, COMPOSED))
         if name == 'sav_trace':
             if st.sav is None:
                 raise Unsupported('sav_trace() outside a function body', node)
